@@ -135,7 +135,7 @@ func runReplay(path string) int {
 	fmt.Printf("replaying %s: property=%s class=%s\n", path, p.Property, p.Observed.Class)
 	scratch := mkScratch()
 	defer os.RemoveAll(scratch)
-	env, err := prepare(scratch, p.Kernel == "race", p.Kernel != "race")
+	env, err := prepare(scratch, p.Kernel == "race", true)
 	if err != nil {
 		os.RemoveAll(scratch)
 		fatal2("%v", err)
